@@ -266,6 +266,13 @@ func NewWorld(cfg Config, rpcs []RPC) *World {
 	w.Points.Limit = cfg.PointLimit
 	w.Points.Install()
 	w.A, w.B = Pipe(&w.Clock)
+	for _, p := range cfg.Points {
+		if p == "harness.transport.closing" {
+			// a transport whose Close lets go of pending I/O at once but takes a while to finish
+			w.A.OnClosing = func() { w.Points.hit("harness.transport.closing") }
+			w.B.OnClosing = func() { w.Points.hit("harness.transport.closing") }
+		}
+	}
 	mopts := cfg.ManagerOptions()
 	if !cfg.NoServer {
 		ctx, cancel := context.WithCancel(context.Background())
